@@ -43,7 +43,8 @@ pub struct T {
 pub fn arity(op: &str) -> Option<usize> {
     Some(match op {
         "in0" | "in1" | "const" => 0,
-        "union" | "chain" | "join" | "xsing" | "antijoin" | "notin" => 2,
+        "union" | "chain" | "join" | "xsing" | "antijoin" | "notin" | "joinb" | "antijoinb" | "notinb" => 2,
+        "reduceb" => 1,
         "b0" | "b1" | "cyc" => 0,
         "sort" | "limit" | "count" | "max" | "min" | "first" | "last" | "tostream" | "defer" | "across" => 1,
         "map" | "filter" | "flatmap" | "filtermap" | "enumerate" | "scan" | "unique" | "kscan" | "fold" | "reduce"
@@ -206,7 +207,7 @@ pub fn eval(t: &T, ins: &[Vec<i64>; 2]) -> Vec<V> {
             out
         }
         "union" | "chain" => kid(0).into_iter().chain(kid(1)).collect(),
-        "join" => {
+        "join" | "joinb" => {
             let (l, r) = (kid(0), kid(1));
             let mut out = vec![];
             for x in &l {
@@ -219,7 +220,9 @@ pub fn eval(t: &T, ins: &[Vec<i64>; 2]) -> Vec<V> {
             out
         }
         "fold" | "foldb" => vec![V::I(kid(0).iter().fold(fold_init(&t.arg), |a, v| foldf(&t.arg, a, v.int())))],
-        "reduce" => kid(0).iter().map(|v| v.int()).reduce(|a, x| redf(&t.arg, a, x)).map(V::I).into_iter().collect(),
+        "reduce" | "reduceb" => {
+            kid(0).iter().map(|v| v.int()).reduce(|a, x| redf(&t.arg, a, x)).map(V::I).into_iter().collect()
+        }
         "kfold" => {
             let mut m: BTreeMap<V, i64> = BTreeMap::new();
             for v in kid(0) {
@@ -233,6 +236,14 @@ pub fn eval(t: &T, ins: &[Vec<i64>; 2]) -> Vec<V> {
             Some(s) => kid(0).into_iter().map(|v| V::p(v, s.clone())).collect(),
             None => vec![],
         },
+        "antijoinb" => {
+            let neg: HashSet<V> = kid(1).into_iter().collect();
+            kid(0).into_iter().filter(|v| !neg.contains(v.pair().0)).collect()
+        }
+        "notinb" => {
+            let neg: HashSet<V> = kid(1).into_iter().collect();
+            kid(0).into_iter().filter(|v| !neg.contains(v)).collect()
+        }
         other => panic!("op {other}"),
     }
 }
